@@ -96,6 +96,8 @@ def build_operator(d):
                               MolecularHamiltonianSymmetry)
     c = d["cls"]
     cx = lambda w: complex(w[0], w[1])
+    if "typed" in d:
+        return build_typed_operator(d)
     if c == "PauliString":
         o = PauliString(*d["p"])
         return o, o
@@ -235,6 +237,184 @@ def field_term_instances(rng, thorough):
     return out
 
 
+# =============================================================================== parameter TYPES
+# A realness guard written as an isinstance test decides by the TYPE of the value, the flag speaks about the VALUE.
+# Every scalar / array parameter of every class with a Hermiticity flag or realness guard is given in every type a
+# caller may plausibly hand in; the class either refuses (no claim) or its claim must hold of the matrix.
+PTYPES = ["int", "float", "bool", "complex", "complex-real", "Fraction",
+          "np.float16", "np.float32", "np.float64", "np.longdouble", "np.complex64", "np.complex128", "np.clongdouble",
+          "np.int8", "np.int32", "np.int64", "np.uint8", "np.bool_",
+          "0d-float64", "0d-complex128", "0d-complex64", "0d-int64", "1elem-complex128"]
+ARRAY_DTYPES = ["complex128", "complex64", "float64", "float32", "float16", "int64", "int8", "bool", "object"]
+
+
+def typed_value(ptype, re, im):
+    """the value re + i im (im dropped by the real types, truncated / made boolean by the integer / bool types)"""
+    from fractions import Fraction
+    z = complex(re, im)
+    if ptype == "int":
+        return int(re)
+    if ptype == "float":
+        return float(re)
+    if ptype == "bool":
+        return bool(re)
+    if ptype == "complex":
+        return z
+    if ptype == "complex-real":
+        return complex(re, 0.0)
+    if ptype == "Fraction":
+        return Fraction(re)
+    if ptype.startswith("np."):
+        t = getattr(np, ptype[3:])
+        if np.issubdtype(t, np.complexfloating):
+            return t(z)
+        if np.issubdtype(t, np.floating):
+            return t(re)
+        return t(int(re)) if t is not np.bool_ else np.bool_(bool(re))
+    if ptype.startswith("0d-"):
+        dt = np.dtype(ptype[3:])
+        return np.array(z if dt.kind == "c" else (re if dt.kind == "f" else int(re)), dtype=dt)
+    if ptype == "1elem-complex128":
+        return np.array([z])
+    raise KeyError(ptype)
+
+
+def typed_array(a, dtype):
+    """the complex array `a` handed over with another dtype (real part for the real dtypes)"""
+    a = np.asarray(a, dtype=complex)
+    dt = np.dtype(dtype)
+    if dt.kind == "c":
+        return a.astype(dt)
+    if dt.kind == "O":
+        return a.astype(object)
+    if dt.kind == "b":
+        return a.real != 0
+    return np.rint(a.real).astype(dt) if dt.kind in "iu" else a.real.astype(dt)
+
+
+def build_typed_operator(d):
+    """d["typed"] = {"slot", "ptype" | "dtype", "re", "im"}: the named parameter is given with that type"""
+    import qib
+    from qib.operator import (PauliString, WeightedPauliString, PauliOperator, FieldOperator, FieldOperatorTerm, IFODesc, IFOType,
+                              IsingHamiltonian, HeisenbergHamiltonian, FermiHubbardHamiltonian, MolecularHamiltonian,
+                              MolecularHamiltonianSymmetry)
+    c, t = d["cls"], d["typed"]
+    slot = t["slot"]
+    v = typed_value(t["ptype"], t["re"], t["im"]) if "ptype" in t else None
+    if c == "IsingHamiltonian":
+        par = {"J": 1.0, "h": 0.5, "g": -0.25}
+        par[slot] = v
+        o = IsingHamiltonian(_field("qubit", d["n"]), par["J"], par["h"], par["g"])
+        return o, o
+    if c == "HeisenbergHamiltonian":
+        J, h = [1.0, -0.5, 2.0], [0.25, 1.0, -0.75]
+        if slot in ("J", "h"):                           # the whole vector as an array of that dtype
+            vec = typed_array([complex(t["re"], t["im"]), 0.5, -1.0], t["dtype"])
+            J, h = (vec, h) if slot == "J" else (J, vec)
+        else:
+            (J if slot[0] == "J" else h)[int(slot[1])] = v
+        o = HeisenbergHamiltonian(_field("qubit", d["n"]), J, h)
+        return o, o
+    if c == "FermiHubbardHamiltonian":
+        par = {"t": 1.0, "u": 0.5}
+        par[slot] = v
+        o = FermiHubbardHamiltonian(_field("fermi", 2, layered=d["spin"]), par["t"], par["u"], d["spin"])
+        return o, o
+    if c == "MolecularHamiltonian":
+        n = d["n"]
+        tk = np.array([[0.5 * (i + j) + 0.25j * (i - j) for j in range(n)] for i in range(n)])      # Hermitian
+        vi = np.zeros((n, n, n, n), dtype=complex)
+        for i in range(n):
+            for j in range(n):
+                vi[i, j, i, j] = 0.5 + 0.25 * (i + j)          # <ij|ij> real: Hermitian and variable-interchange symmetric
+        cc = 0.5
+        if slot == "c":
+            cc = v
+        elif slot == "tkin":
+            if t.get("nonherm"):
+                tk = tk + np.triu(np.full((n, n), complex(t["re"], t["im"])), 1)
+            tk = typed_array(tk, t["dtype"])
+        elif slot == "vint":
+            if t.get("nonherm") and n >= 2:
+                vi[0, 1, 1, 0] += complex(t["re"], t["im"])
+            vi = typed_array(vi, t["dtype"])
+        symm = MolecularHamiltonianSymmetry.HERMITIAN if d["herm"] else MolecularHamiltonianSymmetry(0)
+        o = MolecularHamiltonian(_field("fermi", n), cc, tk, vi, symm)
+        return o, o
+    if c == "WeightedPauliString":
+        o = WeightedPauliString(PauliString(*d["p"]), v)
+        return o, o
+    if c == "PauliOperator":
+        o = PauliOperator([WeightedPauliString(PauliString(*d["p0"]), 0.5), WeightedPauliString(PauliString(*d["p"]), v)])
+        return o, o
+    if c in ("FieldOperator", "FieldOperatorTerm"):
+        n = d["n"]
+        f = _field("fermi", n)
+        num = [IFODesc(f, IFOType.FERMI_CREATE), IFODesc(f, IFOType.FERMI_ANNIHIL)]
+        if slot == "const":                              # the constant term of an operator (no ladder operators)
+            term = FieldOperatorTerm([], np.array(v))
+            op = FieldOperator([term, FieldOperatorTerm(num, np.eye(n))])
+        else:
+            herm = np.array([[1.0 + i if i == j else 0.5 + 0.25j * (i - j) for j in range(n)] for i in range(n)])
+            if slot == "scalar":                         # Hermitian matrix times a typed scalar
+                co = herm * v
+            else:                                        # "coeffs": the coefficient array itself in that dtype
+                if t.get("nonherm"):
+                    herm = herm + np.triu(np.full((n, n), complex(t["re"], t["im"])), 1)
+                co = typed_array(herm, t["dtype"])
+            term = FieldOperatorTerm(num, co)
+            op = FieldOperator([term])
+        return (term if c == "FieldOperatorTerm" else op), op
+    if c == "GeneralGate":
+        mats = {"X": [[0, 1], [1, 0]], "Z": [[1, 0], [0, -1]], "iY": [[0, 1], [-1, 0]], "S": [[1, 0], [0, 1j]], "iX": [[0, 1j], [1j, 0]],
+                "I": [[1, 0], [0, 1]]}
+        o = qib.GeneralGate(typed_array(mats[d["mat"]], t["dtype"]), 1)
+        return o, o
+    raise KeyError(c)
+
+
+def typed_instances(rng, thorough):
+    out = []
+    vals = [(0.5, 0.25), (2.0, 1.0), (1.0, 1e-3)]
+
+    def scal(cls, slot, **kw):
+        for pt in PTYPES:
+            for re, im in (vals if thorough else vals[:2]):
+                out.append(dict({"cls": cls, "typed": {"slot": slot, "ptype": pt, "re": re, "im": im}}, **kw))
+
+    def arr(cls, slot, nonherm=(False, True), **kw):
+        for dt in ARRAY_DTYPES:
+            for nh in nonherm:
+                re, im = rng.choice(vals[:2])
+                out.append(dict({"cls": cls, "typed": {"slot": slot, "dtype": dt, "re": re, "im": im, "nonherm": nh}}, **kw))
+    for slot in ("J", "h", "g"):
+        scal("IsingHamiltonian", slot, n=2)
+    for slot in ("J0", "J1", "J2", "h0", "h1", "h2"):
+        scal("HeisenbergHamiltonian", slot, n=2)
+    arr("HeisenbergHamiltonian", "J", nonherm=(False,), n=2)
+    arr("HeisenbergHamiltonian", "h", nonherm=(False,), n=2)
+    for slot in ("t", "u"):
+        scal("FermiHubbardHamiltonian", slot, spin=False)
+        scal("FermiHubbardHamiltonian", slot, spin=True)
+    scal("MolecularHamiltonian", "c", n=2, herm=True)
+    scal("MolecularHamiltonian", "c", n=1, herm=True)
+    scal("MolecularHamiltonian", "c", n=2, herm=False)
+    arr("MolecularHamiltonian", "tkin", n=2, herm=True)
+    arr("MolecularHamiltonian", "vint", n=2, herm=True)
+    X, Y, Z, YY = [[0], [1], 0], [[1], [1], 1], [[1], [0], 0], [[1], [1], 0]
+    for p in (X, Y, YY, [[1, 0], [1, 1], 3]):
+        scal("WeightedPauliString", "weight", p=p)
+    scal("PauliOperator", "weight", p0=X, p=Z)
+    scal("PauliOperator", "weight", p0=Z, p=YY)
+    for cls in ("FieldOperatorTerm", "FieldOperator"):
+        scal(cls, "const", n=2)
+        scal(cls, "scalar", n=2)
+        arr(cls, "coeffs", n=2)
+    for m in ("X", "Z", "I", "iY", "S", "iX"):
+        arr("GeneralGate", "mat", nonherm=(False,), mat=m)
+    return out
+
+
 def check_operator_flag(ctx, pid, d):
     """claim true => the matrix has the claimed property (the claim may also raise NotImplementedError: no claim)"""
     method = "is_unitary" if pid == "C01" else "is_hermitian"
@@ -253,7 +433,13 @@ def check_operator_flag(ctx, pid, d):
         return None
     ctx.count("operator_flags:%s.%s:%s" % (d["cls"], method, claim))
     if claim:
-        M = dense(mobj.as_matrix())
+        try:
+            M = dense(mobj.as_matrix())
+        except Exception:
+            if "typed" not in d:
+                raise
+            ctx.count("operator_flags:typed:claims-true-but-no-matrix:" + d["cls"])      # nothing to compare the claim with
+            return claim
         dev = float(np.abs(M @ M.conj().T - np.eye(len(M))).max()) if pid == "C01" else float(np.abs(M - M.conj().T).max())
         if not dev <= TOLF:
             ctx.fail("operator-flag:%s.%s:claims-true-but-matrix-is-not" % (d["cls"], method), dict(d, flag_sweep=True),
@@ -300,6 +486,23 @@ def operator_flags(ctx, pid):
         claim = check_operator_flag(ctx, pid, d)
         if claim:
             ctx.nontriv(("operator-flag", repr(d)[:1500]))
+    ctx.rules.append("parameter TYPES (%s): every scalar parameter (Ising J/h/g, Heisenberg J_k/h_k, Hubbard t/u, molecular c, Pauli weights, "
+                     "constant term / scalar factor of field operators) as Python int/float/bool/complex/Fraction, numpy float16/32/64/"
+                     "longdouble, complex64/128/clongdouble, int8/32/64, uint8, bool_, 0-d and 1-element arrays, with non-zero imaginary part "
+                     "where the type can carry one; every array parameter (Heisenberg J/h vectors, molecular tkin/vint, field-operator "
+                     "coefficients, GeneralGate matrix) as complex128/64, float64/32/16, int64/8, bool, object arrays, Hermitian and not: "
+                     "the constructor refuses (no claim) or a claim True holds of as_matrix() to 1e-9" % method)
+    for d in typed_instances(ctx.rng, ctx.thorough):
+        t = d["typed"]
+        try:
+            claim = check_operator_flag(ctx, pid, d)
+        except Exception as e:
+            # the flag method itself fails on an exotic type (Fraction, object arrays): no answer, hence no claim
+            ctx.count("typed:%s:flag-raises-%s" % (t.get("ptype", "array-" + t.get("dtype", "")), type(e).__name__))
+            continue
+        ctx.count("typed:%s:%s" % (t.get("ptype", "array-" + t.get("dtype", "")), "refused" if claim is None else "claims" if claim else "no-claim"))
+        if claim:
+            ctx.nontriv(("typed-flag", repr(d)))
     flag_histories(ctx, pid)
 
 
